@@ -206,6 +206,22 @@ def run():
             groups_meta.append({"a": a, "b": b, "argv": argv[2:]})
             for s in seeds:
                 jobs.append({"argv": argv, "seed": s, "group": gi})
+    # documents with the native date types of YAML and plist (naive and offset-carrying timestamps, dates): the runs of a
+    # group differ in their time zone, among other things
+    import datetime
+    import plistlib
+    ya = b"when: 2001-12-14 21:59:43\nd: 2002-01-01\nt: 2001-12-14T21:59:43+02:00\nl: [2001-12-14 21:59:43, x]\n"
+    yb = b"when: 2001-12-14T21:59:43+00:00\nd: 2002-01-02\nt: 2001-12-14T19:59:43Z\nl: [2001-12-14 21:59:43, y]\n"
+    pa = plistlib.dumps({"d": datetime.datetime(2020, 1, 1, 10, 0, 0), "x": [datetime.datetime(1999, 12, 31, 23, 59, 59)]})
+    pb = plistlib.dumps({"d": datetime.datetime(2020, 1, 1, 11, 0, 0), "x": [datetime.datetime(1999, 12, 31, 23, 59, 59), 1]})
+    for (ca, cb, ext) in ((ya, yb, ".yml"), (ya, ya, ".yml"), (pa, pb, ".plist"), (pa, pa, ".plist")):
+        fa, fb = mats.file(ca, ext, "da"), mats.file(cb, ext, "db")
+        for mode in ([], ["-e"], ["--format", "json"], ["--html"]):
+            argv = [fa, fb, "--no-status", "--no-color"] + mode
+            gi = len(groups_meta)
+            groups_meta.append({"a": ca.decode("latin-1")[:200], "b": cb.decode("latin-1")[:200], "argv": argv[2:]})
+            for s_ in seeds:
+                jobs.append({"argv": argv, "seed": s_, "group": gi})
     ctx = mp.get_context("fork")
     with ctx.Pool(min(16, os.cpu_count() or 4)) as pool:
         results = pool.map(_subprocess_job, jobs, chunksize=2)
